@@ -125,9 +125,10 @@ def sh_int(val=0, base=10):
         at = rope.whole_atom(val)
         if isinstance(at, Num) and not at.chain:
             return at.n
+        conc = rope.try_concrete(val)
+        if conc is not None:
+            return builtins.int(conc)
         ps = rope.nonempty_pieces(val)
-        if len(ps) == 0:
-            raise ValueError("invalid literal for int() with base 10: ''")
         if len(ps) == 1 and isinstance(ps[0], Opq):
             p = ps[0]
             return nondet_int_of_text(_derived(p), p.lo, p.hi, p.length())
@@ -367,6 +368,9 @@ class StructStub:
             if at.fmt == fmt or {at.fmt, fmt} <= {'>I', '!I'}:
                 return at.n
             raise Unsupported('u32 unpacked with a different byte order')
+        conc = rope.try_concrete(data)
+        if conc is not None:
+            return _struct.unpack(fmt, conc)[0]
         ps = rope.nonempty_pieces(data)
         if all(isinstance(p, Opq) and not p.chain for p in ps):
             # arbitrary file content: a fresh 32-bit value, memoised per position
